@@ -53,6 +53,7 @@ def generate(coqdir=None):
     mtxt = open(os.path.join(coqdir, "Model.v")).read()
     seven = "fl_busy_guard" in mtxt     # 9-field flags record (or 10 with fl_load_reads_whole)
     ten = "fl_load_reads_whole" in mtxt
+    twelve = "fl_drop_failed" in mtxt
 
     def work():
         m = astlib.module("klongpy/db/file_cache.py")
@@ -240,6 +241,9 @@ def generate(coqdir=None):
         one(reads, "_load_file read()")
         sub = one(astlib.calls_in(ast.Module(body=gif.body, type_ignores=[]), "submit"), "get_file submit")
         sargs = [ast.unparse(a) for a in sub.args]
+        wrapped_l = bool(sargs) and sargs[0] == "self._run_task"
+        if wrapped_l:
+            sargs = sargs[1:]
         if largs == ["self", "file_name"] and not reads[0].args and sargs == ["self._load_file", "file_name"]:
             load_whole = True
         elif largs == ["self", "file_name", "claim"] and [ast.unparse(a) for a in reads[0].args] == ["claim"] and \
@@ -247,6 +251,36 @@ def generate(coqdir=None):
             load_whole = False
         else:
             raise ShapeError("_load_file / submit arguments: %r %r" % (largs, sargs))
+        # failed tasks: submitted through _run_task, which forgets the entry under the lock and re-raises
+        wsub = one(astlib.calls_in(u, "submit"), "update_file submit")
+        wargs = [ast.unparse(a) for a in wsub.args]
+        wrapped_w = bool(wargs) and wargs[0] == "self._run_task"
+        if wrapped_w:
+            wargs = wargs[1:]
+        if wargs != ["self._write_file", "file_name", "new_file_contents", "use_fsync"]:
+            raise ShapeError("update_file submit arguments: %r" % wargs)
+        has_rt = astlib.has_method(cls, "_run_task")
+        if wrapped_l != wrapped_w or wrapped_l != has_rt:
+            raise ShapeError("_run_task used for only one kind of task")
+        if has_rt:
+            rt = astlib.find_func(cls, "_run_task")
+            want_rt = ("try:\n    return task(file_name, *args)\nexcept BaseException:\n    with self.file_futures_lock:\n"
+                       "        self.file_futures.pop(file_name, None)\n"
+                       "        self.file_access_times = [(t, fn) for t, fn in self.file_access_times if fn != file_name]\n"
+                       "        heapq.heapify(self.file_access_times)\n    raise")
+            if [a.arg for a in rt.args.args] != ["self", "task", "file_name"] or rt.args.vararg is None or \
+                    srcs(astlib.body_no_doc(rt)) != [want_rt]:
+                raise ShapeError("_run_task shape")
+        drop_failed = has_rt
+        # directory creation in _write_file
+        wf = astlib.find_func(cls, "_write_file")
+        wsrc = srcs(astlib.body_no_doc(wf))
+        if "os.makedirs(write_path, exist_ok=True)" in wsrc and not astlib.calls_in(wf, "isdir"):
+            mkdir_ok = True
+        elif "if not os.path.isdir(write_path):\n    os.makedirs(write_path)" in wsrc and len(astlib.calls_in(wf, "makedirs")) == 1:
+            mkdir_ok = False
+        else:
+            raise ShapeError("_write_file directory creation")
 
         # _load_file / _write_file: fs calls outside the lock, ufm last
         for nm, mode in (("_load_file", "'rb'"), ("_write_file", "'wb'")):
@@ -260,7 +294,7 @@ def generate(coqdir=None):
             if not st[-2].startswith("self.update_file_futures_and_memory(file_name, memory_usage=memory_usage)") or st[-1] != "return contents":
                 raise ShapeError(nm + " tail")
         return dict(get_w=get_w, upd_w=upd_w, done_w=done_w, first=first, second=second, touch=touch_if_done, dmax=default_max,
-                    guard=upd_guard, oversize=oversize, else_heap=else_heap, load_whole=load_whole)
+                    guard=upd_guard, oversize=oversize, else_heap=else_heap, load_whole=load_whole, mkdir_ok=mkdir_ok, drop_failed=drop_failed)
 
     def df_retry():
         m = astlib.module("klongpy/db/df_cache.py")
@@ -292,15 +326,16 @@ def generate(coqdir=None):
     b = astlib.coq_bool
     if r is None:
         out.append("(* shape not recognised: %s *)" % why)
-        out.append("Definition gen_flags : flags := mkFlags false true false true false true%s." % ((" false false true false" if ten else " false false false") if seven else ""))
+        out.append("Definition gen_flags : flags := mkFlags false true false true false true%s." % ((" false false true true false false" if twelve else " false false true false" if ten else " false false false") if seven else ""))
         out.append("Definition shape_ok : bool := false.")
         out.append("Definition default_max_memory : Z := 0%Z.")
     else:
         out.append("Definition gen_flags : flags := mkFlags %s %s %s %s %s %s%s." % (
             b(r["get_w"]), b(r["upd_w"]), b(r["done_w"]), b(r["first"]), b(r["second"]), b(r["touch"]),
-            ((" %s %s %s %s" % (b(r["oversize"]), b(r["else_heap"]), b(r["load_whole"]), b(r["guard"])) if ten else
+            ((" %s %s %s %s %s %s" % (b(r["oversize"]), b(r["else_heap"]), b(r["load_whole"]), b(r["mkdir_ok"]), b(r["drop_failed"]), b(r["guard"])) if twelve else
+              " %s %s %s %s" % (b(r["oversize"]), b(r["else_heap"]), b(r["load_whole"]), b(r["guard"])) if ten else
               " %s %s %s" % (b(r["oversize"]), b(r["else_heap"]), b(r["guard"]))) if seven else "")))
-        out.append("Definition shape_ok : bool := %s." % b((seven or not (r["guard"] or r["oversize"] or r["else_heap"])) and (ten or r["load_whole"])))
+        out.append("Definition shape_ok : bool := %s." % b((seven or not (r["guard"] or r["oversize"] or r["else_heap"])) and (ten or r["load_whole"]) and (twelve or (r["mkdir_ok"] and not r["drop_failed"]))))
         out.append("Definition default_max_memory : Z := %d%%Z." % r["dmax"])
     return "\n".join(out) + "\n"
 
@@ -557,12 +592,24 @@ class PathShim:
         SCHED.yield_point("getsize")
         return os.path.getsize(p)
 
+    def isdir(self, p):
+        # a yield point only while the directory does not exist (afterwards the answer can no longer change)
+        if not os.path.isdir(p):
+            SCHED.yield_point("isdir")
+        return os.path.isdir(p)
+
     def __getattr__(self, name):
         return getattr(os.path, name)
 
 
 class OsShim:
     path = PathShim()
+
+    def makedirs(self, p, mode=0o777, exist_ok=False):
+        # makedirs(.., exist_ok=True) on an existing directory is a no-op that commutes with everything: no yield
+        if not (exist_ok and os.path.isdir(p)):
+            SCHED.yield_point("makedirs")
+        return os.makedirs(p, mode, exist_ok)
 
     def __getattr__(self, name):
         return getattr(os, name)
@@ -598,7 +645,17 @@ def patch_module():
 
 
 # ---------------------------------------------------------------- one run of the real cache under a schedule
-FNAMES = ["f0", "f1", "f2"]
+class _Names:
+    """file id -> name: 0,1,2 in the cache root; 100,101,.. in the subdirectory "d" (which may not exist yet)"""
+
+    def __getitem__(self, i):
+        return "f%d" % i if i < 100 else os.path.join("d", "f%d" % i)
+
+    def index(self, name):
+        return int(os.path.basename(name)[1:])
+
+
+FNAMES = _Names()
 
 
 def canon_result(v):
@@ -667,8 +724,8 @@ class Runner:
             futs.append([FNAMES.index(name), int(bool(info[0])), int(info[1]), info[2].fid])
         futs.sort()
         heap = [FNAMES.index(fn) for _, fn in sorted(fc.file_access_times)]
-        disk = []
-        for i in range(nfiles):
+        disk = [[-1, []]] if os.path.isdir(os.path.join(self.workdir, "d")) else []
+        for i in nfiles:
             p = os.path.join(self.workdir, FNAMES[i])
             if os.path.exists(p):
                 with builtins.open(p, "rb") as f:
@@ -689,11 +746,18 @@ class Runner:
         global SCHED
         mx, disk0, progs = cfg
         for fn in os.listdir(self.workdir):
-            os.unlink(os.path.join(self.workdir, fn))
+            p_ = os.path.join(self.workdir, fn)
+            shutil.rmtree(p_) if os.path.isdir(p_) else os.unlink(p_)
         for f, c in disk0:
+            if f < 0:
+                os.makedirs(os.path.join(self.workdir, "d"), exist_ok=True)
+                continue
+            os.makedirs(os.path.dirname(os.path.join(self.workdir, FNAMES[f])), exist_ok=True)
             with builtins.open(os.path.join(self.workdir, FNAMES[f]), "wb") as fh:
                 fh.write(bytes(c))
-        nfiles = 1 + max([f for f, _ in disk0] + [o[1] for p in progs for o in p])
+        ids = [f for f, _ in disk0 if f >= 0] + [o[1] for p in progs for o in p]
+        low = [i for i in ids if i < 100]
+        nfiles = sorted(set(range(0, (max(low) + 1) if low else 0)) | {i for i in ids if i >= 100})
         s = Sched()
         SCHED = s
         s.n_clients = len(progs)
@@ -715,6 +779,16 @@ class Runner:
                         elif o[0] == "upd":
                             res = canon_result(fc.update_file(FNAMES[o[1]], bytes(o[2])))
                         elif o[0] == "dfupd":
+                            # what update_file reports to update() is recorded (instance attribute, the method is untouched)
+                            if not hasattr(fc, "_c18_inner"):
+                                fc._c18_inner = []
+                                orig_uf = fc.update_file
+
+                                def rec_uf(*a_, **k_):
+                                    r_ = orig_uf(*a_, **k_)
+                                    fc._c18_inner.append([SCHED.local.ctl.tid, bool(r_)])
+                                    return r_
+                                fc.update_file = rec_uf
                             res = ["rows", df_rows(fc.update(FNAMES[o[1]], rows_df(o[2])))]
                         elif o[0] == "dfget":
                             res = ["rows", df_rows(fc.get_dataframe(FNAMES[o[1]]))]
@@ -759,6 +833,7 @@ class Runner:
                     out["error"] = "more than 400 steps"
                     break
             out["enabled_end"] = s.enabled()
+            out["inner_update_file"] = list(getattr(fc, "_c18_inner", []))
             out["finished"] = all(c.finished for c in s.ctls.values())
             # a thread parked on an append lock that it holds itself (PandasDataFrameCache.update retry)
             out["self_deadlock"] = any((not c.finished) and c.at == "lock" and isinstance(c.obj, FlockShim) and c.obj.held
@@ -936,15 +1011,20 @@ def plan(chk, rng):
         ("getA;updA||getB-evict", (6, AB, [[g(0), u(0, U1)], [g(1)]]), 2 if q else None, lim),
         # a get against an update to LONGER contents followed by an unload (the size taken before the lock is stale)
         ("get||updLonger;unl", (BIG, A, [[g(0)], [u(0, U2), x(0)]]), 2, 1200 if q else 3000),
+        # first writes into a subdirectory that does not exist yet (makedirs / isdir are steps of the write tasks)
+        ("updD0||updD1-newdir", (BIG, [], [[u(100, U1)], [u(101, U2)]]), None if q else None, 1500),
+        ("updD0||getD0-newdir", (BIG, [], [[u(100, U1)], [g(100)]]), 2, 300),
+        # a load in flight, an update of the same file and a get of the other file under memory pressure
+        ("getA||updA||getB-evict", (6, AB, [[g(0)], [u(0, U1)], [g(1)]]), 1, 1500 if q else 3000),
         # 3 threads x 1 op
         ("upd||upd||get", (BIG, A, [[u(0, U1)], [u(0, U2)], [g(0)]]), 1 if q else 2, lim),
         ("get||upd||unl", (BIG, A, [[g(0)], [u(0, U1)], [x(0)]]), 1 if q else 2, 200 if q else 400),
         ("getA||getA||getB-evict", (6, AB, [[g(0)], [g(0)], [g(1)]]), 1 if q else 2, lim),
     ]
     # the universes of the theorems (as the extracted model lists them)
-    uni = chk.run_model(["(universe u21)", "(universe u22)", "(universe u31)", "(universe u2112)", "(universe u31e)"])
+    uni = chk.run_model(["(universe u21)", "(universe u22)", "(universe u31)", "(universe u2112)", "(universe u31e)", "(universe u21d)"])
     if q:
-        pool = [(nm, c) for nm, U in zip(("U21", "U22", "U31", "U2112", "U31e"), uni) for c in U]
+        pool = [(nm, c) for nm, U in zip(("U21", "U22", "U31", "U2112", "U31e", "U21d"), uni) for c in U]
         for nm, c in rng.sample(pool, 6):
             cfg = cfg_from_model(c[0])
             out.append(("%s:%s" % (nm, cfg_name(cfg)), cfg, 2, 100))
@@ -952,7 +1032,7 @@ def plan(chk, rng):
         for c in uni[0]:
             cfg = cfg_from_model(c[0])
             out.append(("U21:" + cfg_name(cfg), cfg, None, 15))
-        for nm, U in (("U22", uni[1]), ("U31", uni[2]), ("U2112", uni[3]), ("U31e", uni[4])):
+        for nm, U in (("U22", uni[1]), ("U31", uni[2]), ("U2112", uni[3]), ("U31e", uni[4]), ("U21d", uni[5])):
             for c in U:
                 cfg = cfg_from_model(c[0])
                 out.append(("%s:%s" % (nm, cfg_name(cfg)), cfg, 2, 15))
@@ -987,7 +1067,7 @@ def replay(path):
         shutil.rmtree(work, ignore_errors=True)
     fin = r.get("final") or {"disk": []}
     m, lin = chk.run_model([sx(["run", cfg_sx(cfg), list(rep["schedule"])]),
-                            sx(["lin", [[f, list(c)] for f, c in cfg[1]], hist_sx(r.get("history", [])), [[f, c] for f, c in fin["disk"]]])])
+                            sx(["lin", [[f, list(c)] for f, c in cfg[1] if f >= 0], hist_sx(r.get("history", [])), [[f, c] for f, c in fin["disk"] if f >= 0]])])
     print("configuration:", sx(cfg_sx(cfg)))
     print("schedule     :", rep["schedule"], "(thread ids: clients 0..%d, then tasks in submission order)" % (len(cfg[2]) - 1))
     for i, (en, t, snap) in enumerate(r["trace"]):
@@ -1061,7 +1141,37 @@ def df_explore(chk, work, rng, deadline):
                     continue
                 fails.append("deadlock: a call never returns")
             elif name == "df:upd||rawupd":
-                chk.count("df_update_ok")          # the raw writer replaces the file: only termination is judged here
+                # read-modify-write update(rows a) against a raw overwrite (rows y): the two legal outcomes are
+                # update;raw -> y   and   raw;update -> y merged with a (older rows win); a raw write that reported
+                # success must not be undone by a stale merge
+                from klongpy.db.helpers import deserialize_df
+                y = cfg[2][1][0][2]
+                disk = {f: bytes(c) for f, c in r["final"]["disk"]}
+                rets = {(e[1], e[2]): e[3] for e in r["history"] if e[0] == "ret"}
+                raw_ok = rets.get((1, 0)) == ["bool", 1]
+                try:
+                    rows = dict(df_rows(deserialize_df(disk[0])))
+                except Exception as e:      # noqa
+                    rows = None
+                    fails.append("file on disk does not deserialise: %s" % type(e).__name__)
+                merged = dict(a)
+                merged.update(y)
+                ia = dict(a)
+                ia.update(init)
+                refused = any(t_ == 0 and not ok_ for t_, ok_ in r.get("inner_update_file", []))
+                # update() is read + update_file, not atomic against a writer that bypasses it: a raw write landing
+                # between the two is overwritten (ia). But once update_file has reported False to update() (it waited
+                # for the raw write), the retry must read again and merge y.
+                legal = ([merged] if refused else [dict(y), merged, ia]) if raw_ok else [ia]
+                if rows is not None and rows not in legal:
+                    fails.append("final rows %r are none of the legal outcomes %r (raw update_file reported %r)" % (rows, legal, rets.get((1, 0))))
+                if any(v[0] == "exn" for v in rets.values()):
+                    fails.append("a call raised: %r" % rets)
+                if not fails:
+                    chk.count("df_update_ok")
+                    continue
+                bad.append({"config": name, "cfg": repr(cfg)[:400], "schedule": [t for _, t, _ in r["trace"]], "fails": fails[:3],
+                            "history": repr(r.get("history"))[:600]})
                 continue
             else:
                 from klongpy.db.helpers import deserialize_df
@@ -1138,7 +1248,7 @@ def _run(chk, rng, proof, work):
         for r in runs:
             reqs.append(sx(["run", csx, [t for _, t, _ in r["trace"]]]))
             fin = r.get("final") or {"disk": []}
-            reqs.append(sx(["lin", [[f, list(c)] for f, c in cfg[1]], hist_sx(r.get("history", [])), [[f, c] for f, c in fin["disk"]]]))
+            reqs.append(sx(["lin", [[f, list(c)] for f, c in cfg[1] if f >= 0], hist_sx(r.get("history", [])), [[f, c] for f, c in fin["disk"] if f >= 0]]))
         outs = chk.run_model(reqs)
         for j, r in enumerate(runs):
             m, lin = outs[2 * j], outs[2 * j + 1]
